@@ -11,7 +11,8 @@ shapes tracked symbolically (`coefficients`: N × K, Gram matrix of the basis: K
 * `covariance`: which data are used (`self.center()`), `coefficients.T @ coefficients / n_obs`;
 * `norm`: `np.diag` of the inner product and the exponent of `np.power` / `np.sqrt`;
 * `rescale`: the test that decides to re-estimate the weight (`weights == 0.0`) and the power of the weight the
-  coefficients are divided by.
+  coefficients are divided by;
+* `normalize`: whether every keyword argument it accepts is handed to `self.norm`.
 
 `C14.basis_formulas_match_source` proves each equal to the model's `toGrid`, `meanCoef`, `center`, `innerBasis`,
 `covCoef`, `normSqBasis`, `rescaleReestimates`, `rescalePower`, `normPower`.  An unrecognised shape raises `Shape`:
@@ -258,6 +259,19 @@ def _rescale(fn):
     return prop, _power(v.right, "weights")
 
 
+def _normalize(fn):
+    """Does `normalize` hand ALL its keyword arguments (`**kwargs`) to `self.norm`?"""
+    calls = [n for n in ast.walk(fn) if isinstance(n, ast.Call) and isinstance(n.func, ast.Attribute) and n.func.attr == "norm"
+             and isinstance(n.func.value, ast.Name) and n.func.value.id == "self"]
+    if len(calls) != 1:
+        raise Shape("normalize: not exactly one call of self.norm")
+    star = fn.args.kwarg.arg if fn.args.kwarg is not None else None
+    named = [a.arg for a in fn.args.args[1:]] + [a.arg for a in fn.args.kwonlyargs]
+    fwd_star = star is not None and any(k.arg is None and isinstance(k.value, ast.Name) and k.value.id == star for k in calls[0].keywords)
+    fwd_named = all(any(k.arg == a and isinstance(k.value, ast.Name) and k.value.id == a for k in calls[0].keywords) for a in named)
+    return fwd_star and fwd_named
+
+
 def _frac(f):
     return f"({f.numerator} : ℚ)" if f.denominator == 1 else f"(({f.numerator} : ℚ) / {f.denominator})"
 
@@ -271,6 +285,7 @@ def lean_source(path):
     cov = _cov(_method(tree, "covariance"), cen)
     npw = _norm(_method(tree, "norm"))
     guard, rpw = _rescale(_method(tree, "rescale"))
+    nfw = _normalize(_method(tree, "normalize"))
     return f"""/-
 GENERATED by harness/c14_translate.py from FDApy/representation/functional_data.py (class BasisFunctionalData:
 `to_grid`, `mean`, `center`, `inner_product`, `covariance`, `norm`, `rescale`).  Do not edit: regenerated on every run
@@ -303,6 +318,9 @@ def normPowerSrc : ℚ := {_frac(npw)}
 /-- `rescale`: when the weight is re-estimated, and the power of the weight the coefficients are divided by. -/
 def rescaleReestimatesSrc (w : ℚ) : Bool := decide ({guard})
 def rescalePowerSrc : ℚ := {_frac(rpw)}
+
+/-- `normalize` hands every keyword argument it accepts (`**kwargs`: `squared`, `method_integration`, …) to `self.norm`. -/
+def normalizeForwardsKeywords : Bool := {"true" if nfw else "false"}
 
 end FDA.Generated.BasisFormulas
 """
